@@ -398,7 +398,9 @@ unsafe fn any_dir() -> String
 {
     // fixed per run (symbolic lengths multiply the paths through std's path code)
     DIR_LEN = DIRLEN;
-    let mut v: Vec<u8> = Vec::new();
+    // (a real allocation also for the empty directory: CBMC's model of a dangling empty buffer makes the copies in
+    // Path::join read "unallocated memory")
+    let mut v: Vec<u8> = Vec::with_capacity(2);
     if DIR_LEN > 0 { DIR[0] = dir_char(); v.push(DIR[0]); }
     if DIR_LEN > 1 { DIR[1] = dir_char(); v.push(DIR[1]); }
     String::from_utf8_unchecked(v)
